@@ -6,6 +6,9 @@ import vlib
 
 def run(ctx):
     recs = swcorpus.run(ctx, "C12", tags_thorough="{7, 61, 2000, 3000, 4000}")
+    # frames the library decodes lossily (outside C04 / C05) but must own all the same
+    p, n = swcorpus.gen(ctx, "PX", "{7, 61}")
+    recs += pipeline.run_family(ctx, swcorpus.SUB, p, swcorpus.JUDGE, constants="  Prop = \"C12\"\n", max_lines=3000)[1]
     viol, known = swcorpus.settle(ctx, "C12", recs)
     return vlib.finish(
         ctx, "model_checking",
